@@ -310,6 +310,14 @@ func c08Run(c *runner.Ctx) {
 			for k := 0; k < 4 && len(terms) > 0; k++ {
 				probe = append(probe, terms[r.Intn(len(terms))])
 			}
+			// history: a DocsMatchingTerms call that ends on an existing term precedes the lookups (library-internal
+			// shared state such as the empty-list sentinel must not carry anything over into later dictionary lookups)
+			if len(terms) > 0 {
+				pt := terms[r.Intn(len(terms))]
+				if _, derr := sg.S.DocsMatchingTerms([]segment.Term{sTerm{f, []byte(pt)}}); derr != nil {
+					c.Note("DocsMatchingTerms failed (C18's business): " + derr.Error())
+				}
+			}
 			// the lookups alternate between a fresh list and re-using the previous probe's list as prealloc
 			// (present 1-hit / general term followed by an absent one and vice versa)
 			r.Shuffle(len(probe), func(i, j int) { probe[i], probe[j] = probe[j], probe[i] })
